@@ -237,8 +237,11 @@ def _s_whiten(tier):
     # half of the cases get distinct eigenvalues by construction so that the
     # search continues behind the repeated-eigenvalue finding
     R = _hpd(_kmax(tier, "whiten"))
-    return st.one_of(R, R.map(_spread)).map(
-        lambda r: dict(part="whiten", R=r))
+    # absolute scale of the covariance (receiver noise of -150 dBm is a
+    # covariance of order 1e-18; W^H R W = I does not depend on it)
+    sc = st.sampled_from([0, 0, 0, 0, -30, -20, -16, -12, -8, 8, 16, 30])
+    return st.tuples(st.one_of(R, R.map(_spread)), sc).map(
+        lambda t: dict(part="whiten", R=t[0], scale_exp=t[1]))
 
 
 def _s_invupd(tier):
@@ -669,6 +672,10 @@ def _check_whiten(case, ctx):
     kap = float(ev.max() / ev.min())
     gap = _gap_class(_relgap_min(ev))
     tags = dict(part="whiten", n=n, cplx=cplx, ev=gap, mode=case["R"]["mode"])
+    se = int(case.get("scale_exp", 0))
+    if se:
+        R = R * 10.0 ** se
+        ctx.label("whiten:scaled_1e%d" % se)
     ctx.label("whiten", _size_label("whiten", n), _kappa_label("whiten", kap),
               "whiten:" + ("complex" if cplx else "real"),
               "whiten:ev_" + gap, "whiten:" + case["R"]["mode"])
